@@ -462,9 +462,12 @@ def replay(harness, inp):
                 doc.objs[13] = {"Kids": kids}
                 kids = [ref(doc, 13)]
             root = {"Kids": kids}
-        got = ds.NumberTree(root).values
         exp = sorted(zip(keys, vals), key=lambda t: t[0])
-        return None if sorted(got) == sorted(exp) and [g[0] for g in got] == sorted(keys) else "NumberTree(%r).values = %r, expected %r" % (root, got, exp)
+        for attempt in ("first", "second"):           # the same tree flattened twice in one process: both evaluations have to be right
+            got = ds.NumberTree(root).values
+            if not (sorted(got) == sorted(exp) and [g[0] for g in got] == sorted(keys)):
+                return "NumberTree(%r).values = %r on the %s evaluation, expected %r" % (root, got, attempt, exp)
+        return None
     if harness == "H2_labels":
         from pdfminer.psparser import LIT
         ranges = [(s, st, first, bytes.fromhex(pre) if pre else None) for (s, st, first, pre) in inp["ranges"]]
@@ -476,16 +479,25 @@ def replay(harness, inp):
             if pre:
                 d["P"] = pre
             nums += [s, d]
-        it = pd.PageLabels({"Nums": nums}).labels
+        if inp.get("kids"):
+            doc = Doc()
+            doc.objs[5] = {"Nums": nums, "Limits": [0, ranges[-1][0]]}
+            tree = {"Kids": [ref(doc, 5)]}
+        else:
+            tree = {"Nums": nums}
         page = inp["page"]
-        try:
-            got = [next(it) for _ in range(page + 1)][-1]
-        except Exception as e:
-            return "PageLabels(%r): label of page %d raised %r" % (nums, page, e)
         r = max(i for i in range(len(ranges)) if ranges[i][0] <= page)
         s, st, first, pre = ranges[r]
         exp = {None: "", b"p-": "p-", b"\xfe\xff\x00A": "A"}[pre] + ref_label(st, first + page - s)
-        return None if got == exp else "PageLabels(%r): label of page index %d is %r, ISO 32000-1 12.4.2 gives %r" % (nums, page, got, exp)
+        for attempt in ("first", "second"):           # the labels read twice in one process: both evaluations have to be right
+            it = pd.PageLabels(tree).labels
+            try:
+                got = [next(it) for _ in range(page + 1)][-1]
+            except Exception as e:
+                return "PageLabels(%r): label of page %d raised %r" % (tree, page, e)
+            if got != exp:
+                return "PageLabels(%r), %s evaluation: label of page index %d is %r, ISO 32000-1 12.4.2 gives %r" % (tree, attempt, page, got, exp)
+        return None
     if harness == "H4_names":
         from pdfminer.pdfdocument import PDFDestinationNotFound
         present = [k.encode() for k in inp["present"]]
